@@ -47,6 +47,7 @@ EXPECT = {
     'X3': [('FixtureShared::WriteThenThrow', 'out')],
     'X4': [('FixtureShared::NanThrows', 'lat@')],
     'X6': [('FixtureShared::Spin', 'loop@')],
+    'X7': [('FixtureShared::Pick', 'alphabet')],
 }
 
 _cache = {}
@@ -79,6 +80,9 @@ def run_controls(rules):
             res = exc.rule_X4(fx, None)[0]
         elif r == 'X6':
             res = exc.rule_X6(fx, None)[0]
+        elif r == 'X7':
+            from .rules import bounds
+            res = bounds.rule_X7(fx, files=('controls.cpp',))[0]
         else:
             continue
         got = [(f.fn, f.symbol) for f in res.findings]
